@@ -111,7 +111,7 @@ func c01StatusClass(s int) string {
 }
 
 func TestVerifC01HTTPBenignTable(t *testing.T) {
-	m := vk.New(t, "C01", "BreakerHandler + httptest recorder, virtual clock frozen: every status 100-499 (and implicit 200) alone x150 requests on a fresh breaker => 0 dropped; 10000 mixed benign statuses on one breaker => 0 dropped; every status 500-599 alone x400 requests => at least one request dropped, every drop answers 503 without running the handler; handler writes 5xx and then panics (panic recovered by the harness) x400 => at least one request dropped; multi-header handlers (1xx informational headers before the final status, superfluous second WriteHeader of the same class, body before header) classified by the status the client receives: benign x150 => 0 dropped, failing x400 => at least one dropped; non-trivial = row whose breaker dropped something")
+	m := vk.New(t, "C01", "BreakerHandler + httptest recorder, virtual clock frozen: every status 100-499 (and implicit 200) alone x150 requests on a fresh breaker => 0 dropped; 10000 mixed benign statuses on one breaker => 0 dropped; implicit-200 route interleaved with 5xx answers on another route => never dropped; every status 500-599 alone x400 requests => at least one request dropped, every drop answers 503 without running the handler; handler writes 5xx and then panics (panic recovered by the harness) x400 => at least one request dropped; multi-header handlers (1xx informational headers before the final status, superfluous second WriteHeader of the same class, body before header) classified by the status the client receives: benign x150 => 0 dropped, failing x400 => at least one dropped; non-trivial = row whose breaker dropped something")
 	defer m.Done()
 	logx.Disable()
 	stat.SetReporter(nil)
@@ -207,6 +207,30 @@ func TestVerifC01HTTPBenignTable(t *testing.T) {
 		m.Count("mixed_requests_admitted_in_must_admit_state", asserted)
 		m.Case(fmt.Sprint("mixed-success-failure", share, okRow), okRow && tot > acc)
 		m.Sample(map[string]any{"scenario": fmt.Sprintf("%d%% 5xx among <500 responses, %d requests", share, n), "successes": acc, "failures": tot - acc, "dropped_below_threshold": !okRow})
+	}
+	// ---- a healthy route that relies on the implicit 200 (only Write, or nothing at all), interleaved
+	// with 5xx answers on ANOTHER route / handler: nothing of one request may leak into the next,
+	// so the healthy route (only benign outcomes) is never dropped
+	for _, pattern := range []int{1, 3} { // healthy requests per failing request
+		healthy := c01NewHTTP(metrics, fmt.Sprint("implicit-healthy", pattern))
+		other := c01NewHTTP(metrics, fmt.Sprint("implicit-other", pattern))
+		n := vk.N(600, 6000)
+		okRow := true
+		for k := 0; k < n && okRow; k++ {
+			other.call(500+r.Intn(100), r.Intn(2))
+			m.Count("requests_5xx_on_other_route", 1)
+			for j := 0; j < pattern; j++ {
+				mode := 2 + r.Intn(2)
+				ran, code := healthy.call(200, mode)
+				m.Count("requests_implicit_200_interleaved", 1)
+				if !ran {
+					m.Violate("C01:benign:http:implicit-200-interleaved-with-5xx-elsewhere:dropped", fmt.Sprintf("case=%d;route A only ever answers the implicit 200 (Write without WriteHeader / nothing), every %d of its requests a different route B answers 5xx", 860+pattern, pattern), "request #%d on the healthy route was dropped (recorded %d) although all its responses were the implicit 200: an earlier request's status leaked into its outcome", k*pattern+j, code)
+					okRow = false
+					break
+				}
+			}
+		}
+		m.Case(fmt.Sprint("implicit-200-interleaved", pattern, okRow), okRow)
 	}
 	// ---- non-benign rows
 	for s := 500; s <= 599; s++ {
